@@ -56,7 +56,7 @@ def corrupt (fields : List (Nat × Nat)) (bs : Bytes) : Gen Bytes := do
   for _ in [0:k] do cur ← corruptOnce fields cur
   return cur
 
-def okOrPanic {α} : M α → String
+def ctlOkOrPanic {α} : M α → String
   | .ok _ => "ok"
   | .error e => faultStr e
 
